@@ -48,10 +48,13 @@ theorem fit_binsearch_tie (f : K → K) (target tol : K) (fuel : Nat) (lb ub : K
     unfold Gen.Code.fit_binsearch binsearch
     simp only [ih]
 
-/-- the closed-form prefix of `_get_init_cap` (`delta_soc`, `max_dsoc`, `init_soc`) is
-    `Sessions.closedInitSoc`. -/
+/-- the closed-form prefix of `_get_init_cap` is `Sessions.closedInitSoc`: the translation returns the
+    three locals in the order in which the rest of the function reads them (`init_soc`, `max_dsoc`,
+    `delta_soc`), `closedInitSoc` returns `(δ, m, init_soc)`. -/
 theorem fit_closed_init_soc_tie (maxRate ts E T V P cap : K) :
-    Gen.Code.fit_closed_init_soc E T V P cap maxRate ts = closedInitSoc maxRate ts E T V P cap := rfl
+    Gen.Code.fit_closed_init_soc E T V P cap maxRate ts
+      = ((closedInitSoc maxRate ts E T V P cap).2.2, (closedInitSoc maxRate ts E T V P cap).2.1,
+         (closedInitSoc maxRate ts E T V P cap).1) := rfl
 
 /-- `_get_init_cap(battery_cap, max_rate, transition_soc)` inside `batt_cap_fn(requested_energy,
     stay_dur, voltage, period)` is `Sessions.getInitCap` at the literal tolerance of `binsearch`'s
